@@ -1,7 +1,7 @@
 """C12 -- admission rules: blacklist, whitelist, NaN and timestamp normalisation.
 
 Functions under contract: carbon.protocols:MetricReceiver.metricReceived,
-carbon.regexlist:RegexList.{__contains__, __nonzero__ (= __bool__)}.  All three listener
+carbon.regexlist:RegexList.{__contains__, __nonzero__ (= __bool__), read_list}.  All three listener
 protocols reach the pipeline only through metricReceived (syntactic obligation).
 `regex.search(name)` is an uninterpreted predicate: the property is about which datapoints are
 filtered *given* which patterns match.  Floats carry nan/+-inf tags; the timestamp is finite here
@@ -11,6 +11,7 @@ import ast
 import z3
 
 from pyvc.runner import Unit, Property, Syntactic, Bounded
+from pyvc.core import EngineError
 from pyvc.values import PyRaise, Atom
 from .proto_model import ProtoHarness, MR, RL, SEARCH
 from .common import FloatVal
@@ -41,6 +42,119 @@ def u_bool(ctx, index):
   r = z3.BoolVal(r) if isinstance(r, bool) else r
   ctx.cover('bool/returns')
   ctx.check('C12/RegexList.__bool__/iff_nonempty', r == (z3.Length(lst) > 0))
+
+
+STRIP = z3.Function('str_strip', Atom, Atom)
+IS_COMMENT = z3.Function('startswith_hash', Atom, z3.BoolSort())
+IS_BLANK = z3.Function('is_empty_string', Atom, z3.BoolSort())
+COMPILES = z3.Function('re_compiles', Atom, z3.BoolSort())
+
+
+def u_read_list(ctx, index):
+  """read_list(): when the file exists and is newer than the last read, regex_list becomes the
+  order-preserving list of re.compile(line.strip()) over the lines that are not comments (start with
+  '#'), not blank after stripping, and compile; an invalid line is skipped without affecting the
+  others (ordered-filter invariant with ghost index maps); a missing file empties the list; an
+  unchanged file leaves it alone.  str.strip / startswith / truthiness and re.compile are
+  uninterpreted (A-STR); the file's lines are an arbitrary sequence."""
+  from pyvc.interp import LoopSpec
+  from pyvc.models import SymSeq, PyList, TAtom, Namespace, External, EffectLog
+  from pyvc.values import Builtin, ExcVal, ExcClass
+  from .proto_model import Regex, TRegex
+  from . import config_model as CM
+  h = ProtoHarness(ctx, index)
+  ip = h.ip
+  ip.label_prefix = 'C12/'
+  COMPILE = z3.Function('re_compile', Atom, Regex)
+  lines = SymSeq(TAtom, ctx.fresh(z3.SeqSort(Atom), 'lines'), 'lines')
+  exists = ctx.fresh(z3.BoolSort(), 'file_exists')
+  mtime = ctx.fresh(z3.RealSort(), 'mtime')
+  mtime_fails = ctx.choose(2, 'getmtime') == 1
+  last = ctx.fresh(z3.RealSort(), 'rules_last_read')
+  log = EffectLog()
+  rl = h.bl
+  rl.fields['list_file'] = ctx.fresh(Atom, 'list_file')
+  rl.fields['rules_last_read'] = last
+  old_list = rl.fields['regex_list'].term
+
+  def getmtime(ip2, a, k):
+    if mtime_fails:
+      raise PyRaise(ExcVal('OSError', ()))
+    return mtime
+
+  def compile_(ip2, a, k):
+    pat = TAtom.enc(ip2, a[0])
+    if not ip2.ctx.branch(COMPILES(pat), 're.compile accepts'):
+      raise PyRaise(ExcVal('re.error', ()))
+    return COMPILE(pat)
+  os_path = Namespace('os.path', {'exists': Builtin('exists', lambda ip2, a, k: exists), 'getmtime': Builtin('getmtime', getmtime)})
+  ip.env(RL.split(':')[0]).bindings.update({
+    'os': Namespace('os', {'path': os_path}),
+    're': Namespace('re', {'compile': Builtin('compile', compile_), 'error': ExcClass('re.error')}),
+    'log': Namespace('log', {'err': External('log.err', log), 'msg': External('log.msg', log)}),
+    'open': Builtin('open', lambda ip2, a, k: lines),
+  })
+  ip.ext[('method', 'strip')] = lambda ip2, o: STRIP(TAtom.enc(ip2, o))
+  ip.ext[('method', 'startswith')] = lambda ip2, o, pre: IS_COMMENT(TAtom.enc(ip2, o)) if pre == '#' else (_ for _ in ()).throw(EngineError('startswith'))
+  ip.ext[('truth', 'Atom')] = lambda ip2, v: z3.Not(IS_BLANK(v))
+  Q = RL + '.read_list'
+
+  def accepted(line):
+    return z3.And(z3.Not(IS_COMMENT(line)), z3.Not(IS_BLANK(STRIP(line))), COMPILES(STRIP(line)))
+
+  def same(elem, line):
+    return elem == COMPILE(STRIP(line))
+
+  def lst(fr):
+    v = fr['new_regex_list']
+    if isinstance(v, PyList):
+      v = v.to_symseq(ip, TRegex)
+      v.name = 'new_regex_list'
+      fr.locals['new_regex_list'] = v
+    return v
+
+  def pre(fr):
+    lst(fr)
+    fr.ghost['of_src'] = z3.K(z3.IntSort(), z3.IntVal(0))
+    fr.ghost['of_dst'] = z3.K(z3.IntSort(), z3.IntVal(0))
+
+  def inv(fr):
+    return CM.ordered_filter_inv(lst(fr).term, lines.term, fr.loop_k[0], fr.ghost['of_src'], fr.ghost['of_dst'], accepted, same)
+
+  def havoc(fr):
+    lst(fr).havoc(ip, 'new_regex_list')
+    CM.ordered_filter_ghost(ctx, fr)
+    fr.ghost['before'] = lst(fr).term
+    st['exit'] = (fr.ghost['of_src'], fr.ghost['of_dst'])
+
+  def step(fr):
+    CM.ordered_filter_step(fr, lst(fr).term, fr.ghost['before'], fr.loop_k[0] - 1)
+    ctx.cover('read_list/line_done')
+  st = {}
+  ip.loops[(Q, 0)] = LoopSpec('for line in open(self.list_file)', inv, havoc, ghost_pre=pre, ghost_step=step, locals_modified=[])
+  raised = None
+  try:
+    ip.run(Q, [], self_obj=rl)
+  except PyRaise as e:
+    raised = e.exc
+  ctx.cover('read_list/returns')
+  ctx.check('C12/read_list/no_raise', z3.BoolVal(raised is None))
+  if raised is not None:
+    return
+  new = rl.fields['regex_list']
+  newt = new.term if isinstance(new, SymSeq) else (z3.Empty(z3.SeqSort(Regex)) if isinstance(new, PyList) and not new.items else None)
+  ctx.check('C12/read_list/list_is_a_list_of_patterns', z3.BoolVal(newt is not None))
+  if newt is None:
+    return
+  fresh_read = z3.And(exists, z3.BoolVal(not mtime_fails), mtime > last)
+  ctx.check('C12/read_list/missing_file_empties_the_list', z3.Implies(z3.Not(exists), z3.Length(newt) == 0))
+  ctx.check('C12/read_list/unchanged_file_keeps_the_list', z3.Implies(z3.And(exists, z3.Not(fresh_read)), newt == old_list))
+  if 'exit' in st:
+    ctx.cover('read_list/file_read')
+    (srcidx, dstidx) = st['exit']
+    for (label, f) in CM.ordered_filter_inv(newt, lines.term, lines.length(), srcidx, dstidx, accepted, same):
+      ctx.check('C12/read_list/' + label.replace('sections', 'lines').replace('section', 'line'), f)
+    ctx.check('C12/read_list/remembers_the_mtime', rl.fields['rules_last_read'] == mtime)
 
 
 def u_metric_received(ctx, index):
@@ -130,6 +244,8 @@ def build():
   units = [
     Unit('C12/RegexList.__contains__', u_contains, [RL + '.__contains__'], expect_covers=['contains/returns']),
     Unit('C12/RegexList.__bool__', u_bool, [RL + '.__nonzero__'], expect_covers=['bool/returns']),
+    Unit('C12/RegexList.read_list', u_read_list, [RL + '.read_list'],
+         expect_covers=['read_list/returns', 'read_list/line_done', 'read_list/file_read']),
     Unit('C12/metricReceived', u_metric_received, [MR + '.metricReceived', RL + '.__contains__', RL + '.__nonzero__'],
          expect_covers=['metricReceived/returns', 'metricReceived/admitted'], replay=replay_mr),
   ]
@@ -137,7 +253,7 @@ def build():
     'C12', units,
     bounded=[Bounded('C12/native/admission_cross_check', 'replay/receivers_native.py', ['--what', 'c12', '--n', '300'], ['--what', 'c12', '--n', '20000'],
                      "300 (quick) / 20000 (thorough) seeded random (whitelist file, blacklist file, resolution) triples from 9 regex sets (empty, comments, blank and invalid lines) x resolutions 0/1/10/60, each with 12 (name, timestamp, value) draws from 10 names x 16 timestamps (incl. -1, -1.0, -1.5, -3.5, fractional, boundary values) x 7 values (incl. NaN, +-inf, 2**60) on the real line, UDP and pickle listeners with a fake clock, against an independent oracle",
-                     "regexlist.read_list (file parsing) and re.search are outside the discharged contract (uninterpreted); this runs files, regexes and listeners together on CPython")],
+                     "re.compile / re.search and the str primitives of read_list are uninterpreted in the proof (A-STR); this runs files, regexes and listeners together on CPython")],
     syntactic=[Syntactic('C12/callsites/only_through_metricReceived', only_through_metric_received,
                          'the line, UDP and pickle receivers dispatch only via MetricReceiver.metricReceived (one call each, no override)')],
     trusted_base=['A-ENGINE', 'A-SMT', 'A-REAL', 'A-CLOCK', 're.search uninterpreted'],
